@@ -18,6 +18,8 @@ import VerylModel.Driver.Cdc
 import VerylModel.Driver.Assign
 import VerylModel.Driver.FS
 import VerylModel.Driver.Crash
+import VerylModel.Driver.Wide
+import VerylModel.Driver.ExprRef
 
 def main (args : List String) : IO UInt32 := do
   match args with
@@ -44,4 +46,6 @@ def main (args : List String) : IO UInt32 := do
   | ["assignref"] => VerylModel.Driver.Assign.runRef; return 0
   | ["fs"] => VerylModel.Driver.FS.run; return 0
   | ["crash"] => VerylModel.Driver.Crash.run; return 0
+  | ["wide"] => VerylModel.Driver.Wide.run; return 0
+  | ["exprref"] => VerylModel.Driver.ExprRef.run; return 0
   | _ => IO.eprintln s!"vmodel: unknown domain {args}"; return 2
